@@ -5,7 +5,7 @@ import ast
 from typing import Dict, List, Set, Tuple
 
 from ..cfg import cfg_of, no_exc
-from ..model import AnalysisError, ClassInfo, FuncInfo, UNKNOWN, is_self_attr, norm, unparse, walk_shallow
+from ..model import AnalysisError, ClassInfo, FuncInfo, UNKNOWN, body_walk, is_self_attr, norm, unparse, walk_shallow
 from ..report import Check
 from ..rules import calls_in_func, last_name
 from .sym import (auto_persist_decl, auto_persist_set, calls_super_on_all_paths, context_kwargs, context_reads, init_fields,
@@ -58,6 +58,91 @@ def members_deepcopied(chk: Check, rule: str = 'PROV-copy-at-save') -> None:
                 cur = cur.orelse[0]
             ok = any(isinstance(s, ast.Assign) and isinstance(s.value, ast.Call) and norm(s.value.func) == 'copy.deepcopy' for s in cur.orelse)
     chk.ob(rule, sm, ok, 'save_members deep-copies every member that is neither a method nor a Savable', kind='members-deepcopied')
+
+
+def persisted_members_can_be_copied(chk: Check, rule: str = 'PROV-copy-at-save') -> None:
+    """A member that is neither a bound method nor a Savable is saved by ``copy.deepcopy``.  That works for data; a CONTAINER OF FUTURES (or of processes) is
+    neither: ``save_members`` sees a dict, deep-copies it, and the futures inside cannot be copied (``TypeError: cannot pickle ...``).  Decided from the declared
+    type of the member: an auto-persisted attribute annotated as a container whose element / key type is a future or a process makes every save fail while it is
+    non-empty -- the state that holds it cannot be checkpointed."""
+    prog = chk.prog
+    n = 0
+    for c in savable_classes(prog):
+        own = set()
+        for d in c.decorators:
+            if isinstance(d, ast.Call) and last_name(d) == 'auto_persist':
+                own |= {a.value for a in d.args if isinstance(a, ast.Constant) and isinstance(a.value, str)}
+        if not own:
+            continue
+        init = c.vmethods.get('__init__')
+        if init is None:
+            continue
+        for x in ast.walk(init.node):
+            if isinstance(x, ast.AnnAssign) and isinstance(x.target, ast.Attribute) and norm(x.target.value) == 'self' and x.target.attr in own:
+                n += 1
+                ann = norm(x.annotation)
+                inner = ann[ann.index('[') + 1:] if '[' in ann else ''
+                import re as _re
+                bad = bool(inner) and any(t in ('Future', 'SavableFuture', 'Process', 'Awaitable', 'Task', 'CancellableAction') for t in _re.findall(r'[A-Za-z_]\w*', inner))
+                chk.ob(rule, c.qualname, not bad, f'{c.name}.{x.target.attr} is auto-persisted and declared {ann}' + ('' if not bad else
+                       ': save_members deep-copies it, and the futures / processes it holds cannot be copied -- saving this object raises TypeError whenever the container is '
+                       'not empty (a work chain that waits for its children cannot be checkpointed at all)'), node=x, kind='persisted-container-of-futures', expr=x.target.attr)
+    chk.ob(rule, 'persistence.Savable', True, f'{n} annotated auto-persisted member(s) examined', kind='persisted-member-types')
+
+
+def stored_exceptions_roundtrip(chk: Check, rule: str = 'SYM-exception-roundtrip') -> None:
+    """The EXCEPTED state saves its exception object (yaml) and re-creates it on load; copy, pickle and yaml all rebuild an exception as ``cls(*exc.args)`` unless
+    the class says otherwise (``__reduce__``).  An exception class of plumpy whose ``__init__`` REQUIRES more positional arguments than it hands to
+    ``super().__init__`` cannot be rebuilt: a process that ended EXCEPTED with it can be saved but never loaded.  Only classes that can become a process's exception
+    count: those plumpy raises on a path that is first caught where the failure is turned into the EXCEPTED state (or escapes to the caller)."""
+    from ..esc import Esc
+    prog = chk.prog
+    esc = Esc(chk.ctx)
+    n = 0
+    for c in prog.all_classes():
+        if not any(isinstance(b, str) and b.split('.')[-1] in ('Exception', 'BaseException') for b in c.mro()):
+            continue
+        init = c.methods.get('__init__')
+        if init is None or any(m in c.methods for m in ('__reduce__', '__reduce_ex__', '__getnewargs__', '__getnewargs_ex__')):
+            continue
+        a = init.node.args
+        required = len(a.args) - 1 - len(a.defaults)
+        sup = [x for x in ast.walk(init.node) if isinstance(x, ast.Call) and isinstance(x.func, ast.Attribute) and x.func.attr == '__init__'
+               and isinstance(x.func.value, ast.Call) and norm(x.func.value.func) == 'super']
+        passed = len(sup[0].args) if sup and not any(isinstance(z, ast.Starred) for z in sup[0].args) else (None if sup else 0)
+        reassigned = any(isinstance(x, ast.Assign) and any(norm(t) == 'self.args' for t in x.targets) for x in ast.walk(init.node))
+        if passed is None and not reassigned:
+            continue   # forwards *args: rebuilt with what it was given
+        mismatch = reassigned or (passed is not None and required > passed)
+        if not mismatch:
+            continue
+        # where is it raised, and what becomes of it?
+        becomes = []
+        for f in prog.all_funcs():
+            for r in body_walk(f):
+                if isinstance(r, ast.Raise) and isinstance(r.exc, ast.Call) and prog.resolve_class(f.module, r.exc.func) is c:
+                    for o in esc.trace_class(f, r, c):
+                        if o.kind == 'contained' and o.container is not None and o.container.sink == 'excepted-state':
+                            becomes.append(f'{f.short} -> EXCEPTED ({o.container.func.short})')
+                        elif o.kind != 'contained' and o.root == 'public-entry':
+                            root_f = o.path[-1][0]
+                            if root_f.name.startswith('on_') or root_f.has_decorator('protected') or root_f.name in ('enter', 'exit', 'do_enter', 'do_exit', 'execute'):
+                                continue   # hooks are called by the state machinery (inside its own handlers), not by users
+                            becomes.append(f'{f.short} -> caller of {root_f.short}')
+                        elif o.kind != 'contained' and o.root in ('orphan', ''):
+                            # raised inside the wrapper a decorator puts around methods: whoever calls a decorated PUBLIC method gets it
+                            top = o.path[-1][0]
+                            while top.parent is not None:
+                                top = top.parent
+                            deco = [g for g in prog.all_funcs() if g.cls is not None and not g.name.startswith('_') and top.name in [d.split('.')[-1] for d in g.decorator_names()]]
+                            if top.cls is None and deco:
+                                becomes.append(f'{f.short} -> caller of {deco[0].short} (decorated with @{top.name})')
+        n += 1
+        if becomes:
+            chk.ob(rule, c.qualname, False, f'{c.name}.__init__ requires {required} argument(s) but passes {passed if passed is not None else "re-bound args"} to Exception.__init__: it cannot be rebuilt from '
+                   f'its args (copy / pickle / yaml raise TypeError), and it can become the exception of a process ({sorted(set(becomes))[:2]}): such a process is saved but can never be loaded',
+                   node=init.node, kind='exception-rebuilt-from-args', expr=c.name)
+    chk.ob(rule, 'plumpy exceptions', True, f'{n} exception class(es) whose constructor does not match their args examined for reachability of the EXCEPTED state', kind='exception-classes-scan')
 
 
 def persisted_fields(chk: Check, rule: str = 'SYM-persisted-field') -> None:
@@ -288,6 +373,8 @@ def run(chk: Check) -> None:
         ok = bool(uses) and all(any(isinstance(c, ast.Call) and norm(c.func) == 'self.decode_input_args' and any(u is x for x in ast.walk(c)) for c in ast.walk(pl.node)) for u in uses)
         chk.ob('PROV-copy-at-save', pl, ok, f'{k} is restored through decode_input_args', kind=f'decoded:{k}')
     members_deepcopied(chk)
+    persisted_members_can_be_copied(chk)
+    stored_exceptions_roundtrip(chk)
     load_is_deterministic(chk)
     # the in-memory medium: the bundle is a deep copy of the saved state (shared with C14)
     from .c14 import snapshot_isolation
